@@ -1,3 +1,1451 @@
+//! Target `packed`: PackedLevel0 / LayerAdjacency / FlatSearchScratch of engine/src/ann_backend.rs ->
+//! coq/gen/Packed_gen.v.  Every method becomes a Gallina function over the struct's scalar fields and
+//! Vec LENGTHS that returns the memory accesses it performs (checked / unchecked, array, offset, width,
+//! array length at that moment), the state afterwards and its result.  Array CONTENTS are not state:
+//! a read is `rd arr idx` for an arbitrary `rd`.
 use crate::util::*;
-pub struct Out { pub coq: String, pub report: serde_json::Value }
-pub fn run(_repo: &str) -> Res<Out> { fail_at(0, "", "not implemented") }
+use quote::ToTokens;
+use serde_json::json;
+use std::cell::{Cell, RefCell};
+use std::collections::{BTreeMap, BTreeSet};
+use syn::{Expr, Pat, Stmt};
+
+const STRUCTS: &[&str] = &["PackedLevel0", "LayerAdjacency", "FlatSearchScratch"];
+/// methods that MUST translate (the unsafe accessors, their checked twins, constructor/append)
+const MUST: &[(&str, &[&str])] = &[
+    ("PackedLevel0", &["new", "len", "push_node", "count", "count_unchecked", "node_start", "neighbors", "neighbor_unchecked", "set_neighbors", "vector_at", "vector_at_unchecked", "record_ptr"]),
+    ("LayerAdjacency", &["new", "push_node", "slot_for_dense", "ensure_slot", "neighbors", "set_neighbors"]),
+    ("FlatSearchScratch", &["prepare", "finish_query", "mark_visited", "mark_if_unvisited_unchecked"]),
+];
+/// Vec fields deliberately left out of the state (only ever used through safe Vec methods; verified below)
+const IGNORED_VECS: &[(&str, &str)] = &[("FlatSearchScratch", "touched_dense_ids")];
+const LEN_PRESERVING: &[&str] = &["len", "capacity", "is_empty", "get", "get_mut", "iter", "iter_mut", "shrink_to", "shrink_to_fit", "reserve", "reserve_exact", "fill", "contains", "first", "last", "as_slice"];
+const LEN_CHANGING: &[&str] = &["push", "extend", "resize", "clear", "truncate", "pop", "insert", "remove", "swap_remove", "drain", "retain", "append", "split_off", "dedup", "set_len", "extend_from_slice", "resize_with"];
+const RAW_METHODS: &[&str] = &["add", "offset", "sub", "byte_add", "as_ptr", "as_mut_ptr", "get_unchecked", "get_unchecked_mut", "read", "read_unaligned", "write", "write_unaligned", "set_len", "cast"];
+
+#[derive(Clone, Debug, PartialEq)]
+enum FK {
+    Scalar,
+    VecLen,
+    Ignored,
+}
+struct SInfo<'f> {
+    name: String,
+    fields: Vec<(String, FK)>,
+    derives_default: bool,
+    methods: Vec<&'f syn::ImplItemFn>,
+}
+impl<'f> SInfo<'f> {
+    fn kind(&self, f: &str) -> Option<FK> {
+        self.fields.iter().find(|x| x.0 == f).map(|x| x.1.clone())
+    }
+    fn tracked_vec(&self, f: &str) -> bool {
+        self.kind(f) == Some(FK::VecLen)
+    }
+    fn getter(&self, f: &str) -> String {
+        match self.kind(f) {
+            Some(FK::VecLen) => format!("({}_{}_len s)", self.name, f),
+            _ => format!("({}_{} s)", self.name, f),
+        }
+    }
+    fn setter(&self, f: &str, v: &str) -> String {
+        match self.kind(f) {
+            Some(FK::VecLen) => format!("(set_{}_{}_len s {})", self.name, f, v),
+            _ => format!("(set_{}_{} s {})", self.name, f, v),
+        }
+    }
+    fn arr(&self, f: &str) -> String {
+        format!("arr_{}_{}", self.name, f)
+    }
+}
+
+#[derive(Clone, Debug)]
+enum V {
+    Num(String),
+    Bool(String),
+    Opt(String),
+    Ref { arr: String, off: String },
+    OptRef { arr: String, off: String, alen: String, field: String },
+    Ptr { arr: String, off: String, alen: String },
+    Slice { arr: String, off: String, alen: String, field: String },
+    Data,
+}
+#[derive(Clone, Debug)]
+enum Pre {
+    Acc(String),
+    Call { acc: String, res: String, term: String },
+    NeedSome { opt: String, bind: String },
+    Require(String),
+    Let(String, String),
+    SetState(String),
+}
+#[derive(Clone, Debug)]
+struct MethInfo {
+    is_opt: bool,
+    params: Vec<(String, PK)>,
+    written: BTreeSet<String>,
+    mutates: bool,
+}
+#[derive(Clone, Debug, PartialEq)]
+enum PK {
+    Num,
+    SliceLen,
+    Bool,
+}
+type Vars = BTreeMap<String, V>;
+
+#[derive(Clone)]
+enum W<'a> {
+    S(&'a Stmt),
+    LetExpr(String, &'a Expr),
+}
+
+struct Cx<'a, 'f> {
+    st: &'a SInfo<'f>,
+    consts: &'a BTreeMap<String, String>,
+    translated: &'a BTreeMap<String, MethInfo>,
+    skipped: &'a BTreeSet<String>,
+    slice_params: BTreeSet<String>,
+    is_opt: bool,
+    returns_value: bool,
+    pres: RefCell<Vec<Pre>>,
+    fresh: Cell<usize>,
+    written: RefCell<BTreeSet<String>>,
+    accesses: RefCell<Vec<serde_json::Value>>,
+    nd_sites: RefCell<Vec<usize>>,
+    mutates: Cell<bool>,
+}
+
+struct E<'c, 'a, 'f> {
+    cx: &'c Cx<'a, 'f>,
+    vars: &'c Vars,
+}
+
+fn self_field(e: &Expr) -> Option<String> {
+    if let Expr::Field(f) = strip_parens(e) {
+        if path_ident(&f.base).as_deref() == Some("self") {
+            if let syn::Member::Named(n) = &f.member {
+                return Some(n.to_string());
+            }
+        }
+    }
+    None
+}
+
+/// does the expression avoid everything the model cares about (tracked Vecs, sibling calls, unsafe,
+/// raw pointers, control flow)?  Such expressions may be treated as opaque data.
+fn harmless(e: &Expr, st: &SInfo, allow_self_methods: &BTreeSet<String>) -> bool {
+    struct H<'x, 'f> {
+        st: &'x SInfo<'f>,
+        ok: bool,
+        allow: &'x BTreeSet<String>,
+    }
+    impl<'x, 'f, 'ast> syn::visit::Visit<'ast> for H<'x, 'f> {
+        fn visit_expr(&mut self, e: &'ast Expr) {
+            match e {
+                Expr::Unsafe(_) | Expr::Return(_) | Expr::Break(_) | Expr::Continue(_) | Expr::Try(_) | Expr::Macro(_) | Expr::Await(_) | Expr::Yield(_) => self.ok = false,
+                Expr::MethodCall(m) => {
+                    let n = m.method.to_string();
+                    if RAW_METHODS.contains(&n.as_str()) {
+                        self.ok = false;
+                    }
+                    if path_ident(&m.receiver).as_deref() == Some("self") && !self.allow.contains(&n) {
+                        self.ok = false;
+                    }
+                    if let Some(f) = self_field(&m.receiver) {
+                        if self.st.tracked_vec(&f) && !["len", "capacity", "is_empty"].contains(&n.as_str()) {
+                            self.ok = false;
+                        }
+                    }
+                }
+                Expr::Index(ix) => {
+                    if let Some(f) = self_field(&ix.expr) {
+                        if self.st.tracked_vec(&f) {
+                            self.ok = false;
+                        }
+                    }
+                }
+                Expr::Call(c) => {
+                    let p = path_string(&c.func).unwrap_or_default();
+                    if p.contains("from_raw_parts") || p.contains("transmute") || p.contains("ptr::") {
+                        self.ok = false;
+                    }
+                }
+                Expr::Assign(a) => {
+                    if let Some(f) = self_field(&a.left) {
+                        if self.st.kind(&f).map(|k| k != FK::Ignored).unwrap_or(false) {
+                            self.ok = false;
+                        }
+                    }
+                }
+                Expr::Reference(r) => {
+                    // taking a reference to a tracked Vec as a whole (could be mutated elsewhere)
+                    if let Some(f) = self_field(&r.expr) {
+                        if self.st.tracked_vec(&f) {
+                            self.ok = false;
+                        }
+                    }
+                }
+                _ => {}
+            }
+            if self.ok {
+                syn::visit::visit_expr(self, e);
+            }
+        }
+    }
+    let mut h = H { st, ok: true, allow: allow_self_methods };
+    syn::visit::Visit::visit_expr(&mut h, e);
+    h.ok
+}
+
+/// an untranslated method is acceptable only if it cannot change the length of a tracked Vec and has no
+/// unsafe code: every use of a tracked Vec is through a length-preserving safe method
+fn preserves(f: &syn::ImplItemFn, st: &SInfo, ok_siblings: &BTreeSet<String>) -> Result<(), (usize, String)> {
+    struct P<'x, 'f> {
+        st: &'x SInfo<'f>,
+        bad: Option<(usize, String)>,
+        sib: &'x BTreeSet<String>,
+    }
+    impl<'x, 'f, 'ast> syn::visit::Visit<'ast> for P<'x, 'f> {
+        fn visit_expr(&mut self, e: &'ast Expr) {
+            let mut flag = |s: &mut Self, why: &str| {
+                if s.bad.is_none() {
+                    s.bad = Some((line_of(e), format!("{}: {}", why, src_of(e))));
+                }
+            };
+            match e {
+                Expr::Unsafe(_) => flag(self, "unsafe block"),
+                Expr::MethodCall(m) => {
+                    let n = m.method.to_string();
+                    if RAW_METHODS.contains(&n.as_str()) {
+                        flag(self, "raw pointer / unchecked method");
+                    }
+                    if path_ident(&m.receiver).as_deref() == Some("self") && !self.sib.contains(&n) {
+                        flag(self, "call of a sibling method that is neither translated nor length-preserving");
+                    }
+                    if let Some(f) = self_field(&m.receiver) {
+                        if self.st.tracked_vec(&f) && !LEN_PRESERVING.contains(&n.as_str()) {
+                            flag(self, "method on a tracked Vec that may change its length");
+                        }
+                    }
+                }
+                Expr::Assign(a) => {
+                    if let Some(f) = self_field(&a.left) {
+                        if self.st.kind(&f).map(|k| k != FK::Ignored).unwrap_or(false) {
+                            flag(self, "assignment to a tracked field");
+                        }
+                    }
+                }
+                Expr::Reference(r) => {
+                    if r.mutability.is_some() {
+                        if let Some(f) = self_field(&r.expr) {
+                            if self.st.tracked_vec(&f) {
+                                flag(self, "mutable borrow of a tracked Vec");
+                            }
+                        }
+                    }
+                }
+                Expr::Call(c) => {
+                    let p = path_string(&c.func).unwrap_or_default();
+                    if p.contains("from_raw_parts") || p.contains("transmute") || p.contains("mem::take") || p.contains("mem::swap") || p.contains("mem::replace") {
+                        flag(self, "raw / swapping operation");
+                    }
+                }
+                _ => {}
+            }
+            syn::visit::visit_expr(self, e);
+        }
+    }
+    let mut p = P { st, bad: None, sib: ok_siblings };
+    syn::visit::Visit::visit_block(&mut p, &f.block);
+    match p.bad {
+        None => Ok(()),
+        Some(b) => Err(b),
+    }
+}
+
+impl<'c, 'a, 'f> NumEnv for E<'c, 'a, 'f> {
+    fn var(&self, name: &str) -> Option<String> {
+        match self.vars.get(name) {
+            Some(V::Num(t)) => Some(t.clone()),
+            _ => None,
+        }
+    }
+    fn constant(&self, path: &str) -> Option<String> {
+        self.cx.consts.get(path).cloned()
+    }
+    fn field(&self, f: &syn::ExprField) -> Option<Res<String>> {
+        let e = Expr::Field(f.clone());
+        if let Some(n) = self_field(&e) {
+            return match self.cx.st.kind(&n) {
+                Some(FK::Scalar) => Some(Ok(self.cx.st.getter(&n))),
+                _ => Some(fail(f, "field is not a tracked scalar of the struct")),
+            };
+        }
+        None
+    }
+    fn method(&self, recv: &Expr, name: &str, args: &[&Expr]) -> Option<Res<String>> {
+        if name == "len" && args.is_empty() {
+            if let Some(f) = self_field(recv) {
+                if self.cx.st.tracked_vec(&f) {
+                    return Some(Ok(self.cx.st.getter(&f)));
+                }
+                return Some(fail(recv, "length of a field outside the model"));
+            }
+            if let Some(id) = path_ident(recv) {
+                if self.cx.slice_params.contains(&id) {
+                    return Some(Ok(format!("{}_len", coq_ident(&id))));
+                }
+            }
+        }
+        None
+    }
+    fn special(&self, e: &Expr) -> Option<Res<String>> {
+        match e {
+            Expr::Index(_) | Expr::Unsafe(_) | Expr::Try(_) => Some(self.as_num(e)),
+            Expr::Unary(u) if matches!(u.op, syn::UnOp::Deref(_)) => Some(self.as_num(e)),
+            Expr::MethodCall(m) => {
+                let n = m.method.to_string();
+                let sib = path_ident(&m.receiver).as_deref() == Some("self");
+                if sib || ["unwrap_or", "expect", "unwrap"].contains(&n.as_str()) {
+                    Some(self.as_num(e))
+                } else {
+                    None
+                }
+            }
+            _ => None,
+        }
+    }
+}
+
+impl<'c, 'a, 'f> E<'c, 'a, 'f> {
+    fn as_num(&self, e: &Expr) -> Res<String> {
+        match self.eval_v(e)? {
+            V::Num(t) => Ok(t),
+            _ => fail(e, "expression does not denote a number in the index model"),
+        }
+    }
+    fn push(&self, p: Pre) {
+        self.cx.pres.borrow_mut().push(p);
+    }
+    fn fresh(&self, base: &str) -> String {
+        let k = self.cx.fresh.get();
+        self.cx.fresh.set(k + 1);
+        format!("{}{}", base, k)
+    }
+    fn acc(&self, at: &Expr, unchecked: bool, field: &str, arr: &str, off: &str, width: &str, alen: &str, write: bool) {
+        self.push(Pre::Acc(format!("mk_pacc {} {} {} {} {}", if unchecked { "true" } else { "false" }, arr, off, width, alen)));
+        self.cx.accesses.borrow_mut().push(json!({"line": line_of(at), "unchecked": unchecked, "array": field, "offset": off, "width": width, "write": write, "source": src_of(at)}));
+        if write {
+            self.cx.written.borrow_mut().insert(field.to_string());
+        }
+    }
+    fn check_raw(&self, at: &Expr, field: &str) -> Res<()> {
+        if self.cx.written.borrow().contains(field) {
+            return fail(at, "read of an array after a write to it in the same method (contents are modelled as one arbitrary function)");
+        }
+        Ok(())
+    }
+    fn num(&self, e: &Expr) -> Res<String> {
+        num(e, self)
+    }
+
+    fn range_of(&self, r: &syn::ExprRange, alen: &str) -> Res<(String, String)> {
+        let lo = match &r.start {
+            Some(s) => self.num(s)?,
+            None => "0".to_string(),
+        };
+        let hi = match (&r.end, &r.limits) {
+            (Some(e), syn::RangeLimits::HalfOpen(_)) => self.num(e)?,
+            (Some(e), syn::RangeLimits::Closed(_)) => format!("({} + 1)", self.num(e)?),
+            (None, _) => alen.to_string(),
+        };
+        Ok((lo, hi))
+    }
+
+    fn eval_v(&self, e: &Expr) -> Res<V> {
+        let e = strip_parens(e);
+        let st = self.cx.st;
+        match e {
+            Expr::Unsafe(u) => {
+                if u.block.stmts.len() == 1 {
+                    if let Stmt::Expr(x, None) = &u.block.stmts[0] {
+                        return self.eval_v(x);
+                    }
+                }
+                fail(e, "multi-statement unsafe block in expression position")
+            }
+            Expr::Reference(r) => self.eval_v(&r.expr),
+            Expr::Cast(c) => {
+                let v = self.eval_v(&c.expr)?;
+                match v {
+                    V::Num(t) => {
+                        let ty = src_of(&c.ty);
+                        Ok(V::Num(match ty.as_str() {
+                            "usize" | "u64" | "u128" => t,
+                            "u32" => format!("(as_u32 {})", t),
+                            "u16" => format!("(as_u16 {})", t),
+                            _ => return fail(e, "cast to a type the index model does not cover"),
+                        }))
+                    }
+                    other => Ok(other),
+                }
+            }
+            Expr::Try(t) => self.need(e, self.eval_v(&t.expr)?),
+            Expr::Lit(l) => match &l.lit {
+                syn::Lit::Bool(b) => Ok(V::Bool(if b.value { "true".into() } else { "false".into() })),
+                syn::Lit::Int(_) => Ok(V::Num(self.num(e)?)),
+                _ => Ok(V::Data),
+            },
+            Expr::Path(_) => {
+                if let Some(id) = path_ident(e) {
+                    if let Some(v) = self.vars.get(&id) {
+                        return Ok(v.clone());
+                    }
+                    if id == "None" {
+                        return Ok(V::Opt("None".into()));
+                    }
+                }
+                match self.num(e) {
+                    Ok(t) => Ok(V::Num(t)),
+                    Err(_) => Ok(V::Data),
+                }
+            }
+            Expr::Unary(u) if matches!(u.op, syn::UnOp::Deref(_)) => match self.eval_v(&u.expr)? {
+                V::Ref { arr, off } => Ok(V::Num(format!("(rd {} {})", arr, off))),
+                V::Data => Ok(V::Data),
+                _ => fail(e, "dereference of something that is not an element reference"),
+            },
+            Expr::Index(ix) => {
+                let Some(f) = self_field(&ix.expr) else {
+                    // a slice parameter: only ranges
+                    if let Some(id) = path_ident(&ix.expr) {
+                        if self.cx.slice_params.contains(&id) {
+                            let alen = format!("{}_len", coq_ident(&id));
+                            if let Expr::Range(r) = strip_parens(&ix.index) {
+                                let (lo, hi) = self.range_of(r, &alen)?;
+                                self.acc(e, false, &format!("param {}", id), "arr_param", &lo, &format!("({} - {})", hi, lo), &alen, false);
+                                self.push(Pre::Require(format!("(({} <=? {}) && ({} <=? {}))", lo, hi, hi, alen)));
+                                return Ok(V::Data);
+                            }
+                        }
+                    }
+                    return fail(e, "indexing of something other than a tracked Vec field or a slice parameter range");
+                };
+                if !st.tracked_vec(&f) {
+                    return fail(e, "indexing of a field outside the model");
+                }
+                let (arr, alen) = (st.arr(&f), st.getter(&f));
+                if let Expr::Range(r) = strip_parens(&ix.index) {
+                    let (lo, hi) = self.range_of(r, &alen)?;
+                    self.acc(e, false, &f, &arr, &lo, &format!("({} - {})", hi, lo), &alen, false);
+                    self.push(Pre::Require(format!("(({} <=? {}) && ({} <=? {}))", lo, hi, hi, alen)));
+                    return Ok(V::Slice { arr, off: lo, alen, field: f });
+                }
+                let i = self.num(&ix.index)?;
+                self.check_raw(e, &f)?;
+                self.acc(e, false, &f, &arr, &i, "1", &alen, false);
+                self.push(Pre::Require(format!("({} <? {})", i, alen)));
+                Ok(V::Num(format!("(rd {} {})", arr, i)))
+            }
+            Expr::Call(c) => {
+                let p = path_string(&c.func).unwrap_or_default();
+                let short = p.rsplit("::").next().unwrap_or("");
+                if short == "Some" && c.args.len() == 1 {
+                    return Ok(match self.eval_v(&c.args[0])? {
+                        V::Num(t) => V::Opt(format!("(Some {})", t)),
+                        _ => V::Opt("(Some 0)".into()),
+                    });
+                }
+                if short == "from_raw_parts" || short == "from_raw_parts_mut" {
+                    if c.args.len() != 2 {
+                        return fail(e, "from_raw_parts with an unexpected argument count");
+                    }
+                    let pv = self.eval_v(&c.args[0])?;
+                    let n = self.num(&c.args[1])?;
+                    if let V::Ptr { arr, off, alen } = pv {
+                        let field = arr.rsplit('_').next().unwrap_or("").to_string();
+                        self.acc(e, true, &field, &arr, &off, &n, &alen, false);
+                        return Ok(V::Slice { arr, off, alen, field });
+                    }
+                    return fail(e, "from_raw_parts on a pointer whose provenance the extractor lost");
+                }
+                if p.contains("transmute") || p.contains("ptr::") {
+                    return fail(e, "raw memory operation outside the recognised patterns");
+                }
+                for a in &c.args {
+                    let _ = self.eval_v(a)?;
+                }
+                Ok(V::Data)
+            }
+            Expr::MethodCall(m) => self.method_v(e, m),
+            Expr::Binary(b) => {
+                use syn::BinOp::*;
+                match b.op {
+                    Lt(_) | Le(_) | Gt(_) | Ge(_) | Eq(_) | Ne(_) | And(_) | Or(_) => match self.cond(e) {
+                        Ok(t) => Ok(V::Bool(t)),
+                        Err(er) => {
+                            if harmless(e, st, &BTreeSet::new()) {
+                                Ok(V::Data)
+                            } else {
+                                Err(er)
+                            }
+                        }
+                    },
+                    _ => self.num_or_data(e),
+                }
+            }
+            _ => self.num_or_data(e),
+        }
+    }
+
+    fn num_or_data(&self, e: &Expr) -> Res<V> {
+        let mark = self.cx.pres.borrow().len();
+        match self.num(e) {
+            Ok(t) => Ok(V::Num(t)),
+            Err(er) => {
+                if harmless(e, self.cx.st, &BTreeSet::new()) {
+                    self.cx.pres.borrow_mut().truncate(mark);
+                    Ok(V::Data)
+                } else {
+                    Err(er)
+                }
+            }
+        }
+    }
+
+    /// `?`, `.expect()`, `.unwrap()`: continue only with Some
+    fn need(&self, at: &Expr, v: V) -> Res<V> {
+        match v {
+            V::Opt(o) => {
+                let b = self.fresh("x");
+                self.push(Pre::NeedSome { opt: o, bind: b.clone() });
+                Ok(V::Num(b))
+            }
+            V::OptRef { arr, off, alen, field } => {
+                self.push(Pre::Require(format!("({} <? {})", off, alen)));
+                self.acc(at, false, &field, &arr, &off, "1", &alen, false);
+                Ok(V::Ref { arr, off })
+            }
+            _ => fail(at, "`?` / expect / unwrap on something that is not an Option in the model"),
+        }
+    }
+
+    fn method_v(&self, e: &Expr, m: &syn::ExprMethodCall) -> Res<V> {
+        let st = self.cx.st;
+        let n = m.method.to_string();
+        let args: Vec<&Expr> = m.args.iter().collect();
+        // sibling call
+        if path_ident(&m.receiver).as_deref() == Some("self") {
+            if let Some(mi) = self.cx.translated.get(&n) {
+                if mi.params.len() != args.len() {
+                    return fail(e, "sibling call with an unexpected argument count");
+                }
+                let mut ts = Vec::new();
+                for (a, (_, pk)) in args.iter().zip(mi.params.iter()) {
+                    match pk {
+                        PK::Num => ts.push(self.num(a)?),
+                        PK::Bool => match self.eval_v(a)? {
+                            V::Bool(t) => ts.push(t),
+                            _ => return fail(a, "boolean argument the model cannot express"),
+                        },
+                        PK::SliceLen => {
+                            let inner = strip_casts(a);
+                            let inner = if let Expr::Reference(r) = inner { strip_parens(&r.expr) } else { inner };
+                            match path_ident(inner) {
+                                Some(id) if self.cx.slice_params.contains(&id) => ts.push(format!("{}_len", coq_ident(&id))),
+                                _ => match self.vars.get(&path_ident(inner).unwrap_or_default()) {
+                                    _ => return fail(a, "slice argument that is not a slice parameter of the caller"),
+                                },
+                            }
+                        }
+                    }
+                }
+                for w in &mi.written {
+                    self.cx.written.borrow_mut().insert(w.clone());
+                }
+                if mi.mutates {
+                    self.cx.mutates.set(true);
+                }
+                let k = self.fresh("");
+                let (acc, res) = (format!("a{}", k), format!("r{}", k));
+                let term = format!("{}_{} s rd nd{}", st.name, n, ts.iter().map(|t| format!(" {}", t)).collect::<String>());
+                self.push(Pre::Call { acc, res: res.clone(), term });
+                return Ok(if mi.is_opt { V::Opt(res) } else { V::Num(format!("(opt_or {} 0)", res)) });
+            }
+            if self.cx.skipped.contains(&n) {
+                // length-preserving, safe, untranslated: may rewrite contents of any array
+                for (f, k) in &st.fields {
+                    if *k == FK::VecLen {
+                        self.cx.written.borrow_mut().insert(f.clone());
+                    }
+                }
+                return Ok(V::Data);
+            }
+            return fail(e, "call of a sibling method that was not translated");
+        }
+        match n.as_str() {
+            "expect" | "unwrap" => {
+                let v = self.eval_v(&m.receiver)?;
+                return self.need(e, v);
+            }
+            "unwrap_or" if args.len() == 1 => {
+                if let V::Opt(o) = self.eval_v(&m.receiver)? {
+                    let d = self.num(args[0])?;
+                    return Ok(V::Num(format!("(opt_or {} {})", o, d)));
+                }
+                return fail(e, "unwrap_or on something that is not an Option<number> in the model");
+            }
+            "is_some" | "is_none" if args.is_empty() => {
+                if let V::Opt(o) = self.eval_v(&m.receiver)? {
+                    let t = format!("(match {} with Some _ => true | None => false end)", o);
+                    return Ok(V::Bool(if n == "is_some" { t } else { format!("(negb {})", t) }));
+                }
+                return fail(e, "is_some on something that is not an Option in the model");
+            }
+            "is_empty" if args.is_empty() => {
+                if let Some(id) = path_ident(&m.receiver) {
+                    if self.cx.slice_params.contains(&id) {
+                        return Ok(V::Bool(format!("({}_len =? 0)", coq_ident(&id))));
+                    }
+                }
+            }
+            _ => {}
+        }
+        // methods on a tracked Vec field
+        if let Some(f) = self_field(&m.receiver) {
+            if st.tracked_vec(&f) {
+                let (arr, alen) = (st.arr(&f), st.getter(&f));
+                match n.as_str() {
+                    "get_unchecked" | "get_unchecked_mut" if args.len() == 1 => {
+                        let i = self.num(args[0])?;
+                        if n == "get_unchecked" {
+                            self.check_raw(e, &f)?;
+                        }
+                        self.acc(e, true, &f, &arr, &i, "1", &alen, false);
+                        return Ok(V::Ref { arr, off: i });
+                    }
+                    "get" | "get_mut" if args.len() == 1 => {
+                        let i = self.num(args[0])?;
+                        return Ok(V::OptRef { arr, off: i, alen, field: f });
+                    }
+                    "as_ptr" | "as_mut_ptr" if args.is_empty() => return Ok(V::Ptr { arr, off: "0".into(), alen }),
+                    "len" if args.is_empty() => return Ok(V::Num(alen)),
+                    "capacity" | "is_empty" => return Ok(V::Data),
+                    _ => return fail(e, "method on a tracked Vec in expression position that the extractor does not model"),
+                }
+            }
+        }
+        match n.as_str() {
+            "as_ptr" | "as_mut_ptr" if args.is_empty() => match self.eval_v(&m.receiver)? {
+                V::Slice { arr, off, alen, .. } => return Ok(V::Ptr { arr, off, alen }),
+                _ => return fail(e, "as_ptr on something whose storage the extractor does not know"),
+            },
+            "add" if args.len() == 1 => match self.eval_v(&m.receiver)? {
+                V::Ptr { arr, off, alen } => {
+                    let d = self.num(args[0])?;
+                    let noff = if off == "0" { d } else { format!("({} + {})", off, d) };
+                    let field = arr.rsplit('_').next().unwrap_or("").to_string();
+                    // pointer arithmetic itself must stay inside the allocation (or one past the end)
+                    self.acc(e, true, &field, &arr, &noff, "0", &alen, false);
+                    return Ok(V::Ptr { arr, off: noff, alen });
+                }
+                _ => return fail(e, "pointer arithmetic on a pointer whose provenance the extractor lost"),
+            },
+            "iter" | "iter_mut" | "zip" | "enumerate" | "take" | "copied" | "cloned" => {
+                let r = self.eval_v(&m.receiver)?;
+                for a in &args {
+                    let _ = self.eval_v(a)?;
+                }
+                return Ok(r);
+            }
+            _ => {}
+        }
+        if RAW_METHODS.contains(&n.as_str()) {
+            return fail(e, "raw pointer / unchecked method outside the recognised patterns");
+        }
+        self.num_or_data(e)
+    }
+
+    fn cond(&self, e: &Expr) -> Res<String> {
+        let e = strip_parens(e);
+        match e {
+            Expr::Binary(b) if matches!(b.op, syn::BinOp::And(_)) => Ok(format!("({} && {})", self.cond(&b.left)?, self.cond(&b.right)?)),
+            Expr::Binary(b) if matches!(b.op, syn::BinOp::Or(_)) => Ok(format!("({} || {})", self.cond(&b.left)?, self.cond(&b.right)?)),
+            Expr::Unary(u) if matches!(u.op, syn::UnOp::Not(_)) => Ok(format!("(negb {})", self.cond(&u.expr)?)),
+            Expr::Binary(_) => cmp(e, self),
+            _ => match self.eval_v(e)? {
+                V::Bool(t) => Ok(t),
+                _ => fail(e, "condition the model cannot express"),
+            },
+        }
+    }
+}
+
+fn wrap(pres: &[Pre], rest: String) -> String {
+    let mut t = rest;
+    for p in pres.iter().rev() {
+        t = match p {
+            Pre::Acc(a) => format!("m_pre [{}]\n  ({})", a, t),
+            Pre::Call { acc, res, term } => format!("(let '({}, s, {}) := {} in m_pre {}\n  ({}))", acc, res, term, acc, t),
+            Pre::NeedSome { opt, bind } => format!("(match {} with Some {} =>\n  {}\n  | None => (nil, s, None) end)", opt, bind, t),
+            Pre::Require(b) => format!("(if {} then\n  {}\n  else (nil, s, None))", b, t),
+            Pre::Let(n, v) => format!("(let {} := {} in\n  {})", n, v, t),
+            Pre::SetState(v) => format!("(let s := {} in\n  {})", v, t),
+        };
+    }
+    t
+}
+
+impl<'a, 'f> Cx<'a, 'f> {
+    fn take_pres(&self) -> Vec<Pre> {
+        std::mem::take(&mut *self.pres.borrow_mut())
+    }
+
+    fn result_term(&self, v: &V) -> String {
+        let val = match v {
+            V::Opt(o) if self.is_opt => o.clone(),
+            V::Opt(_) => "(Some 0)".into(),
+            V::Num(t) => format!("(Some {})", t),
+            V::Bool(b) => format!("(Some (b2n {}))", b),
+            _ => "(Some 0)".into(),
+        };
+        format!("(nil, s, {})", val)
+    }
+
+    fn is_noop_expr(&self, e: &Expr, vars: &Vars) -> bool {
+        let st = self.st;
+        let e = strip_parens(e);
+        match e {
+            Expr::If(i) => {
+                let cond_ok = harmless(&i.cond, st, &BTreeSet::new());
+                let then_ok = i.then_branch.stmts.iter().all(|s| self.is_noop_stmt(s, vars));
+                let else_ok = match &i.else_branch {
+                    None => true,
+                    Some((_, eb)) => self.is_noop_expr(eb, vars),
+                };
+                // a let-pattern condition binds variables: not a no-op
+                cond_ok && !matches!(strip_parens(&i.cond), Expr::Let(_)) && then_ok && else_ok
+            }
+            Expr::Block(b) => b.block.stmts.iter().all(|s| self.is_noop_stmt(s, vars)),
+            Expr::MethodCall(m) => {
+                if let Some(f) = self_field(&m.receiver) {
+                    if st.tracked_vec(&f) {
+                        return LEN_PRESERVING.contains(&m.method.to_string().as_str()) && !["get", "get_mut", "iter", "iter_mut", "fill"].contains(&m.method.to_string().as_str()) && m.args.iter().all(|a| harmless(a, st, &BTreeSet::new()));
+                    }
+                }
+                harmless(e, st, &BTreeSet::new())
+            }
+            Expr::Assign(a) => {
+                if let Expr::Unary(u) = strip_parens(&a.left) {
+                    if matches!(u.op, syn::UnOp::Deref(_)) {
+                        if let Some(id) = path_ident(&u.expr) {
+                            if matches!(vars.get(&id), Some(V::Ref { .. }) | Some(V::Data) | None) {
+                                return harmless(&a.right, st, &BTreeSet::new());
+                            }
+                        }
+                    }
+                }
+                harmless(e, st, &BTreeSet::new())
+            }
+            Expr::Binary(b) => {
+                use syn::BinOp::*;
+                if matches!(b.op, BitOrAssign(_) | BitAndAssign(_) | BitXorAssign(_) | AddAssign(_) | SubAssign(_)) {
+                    if let Expr::Unary(u) = strip_parens(&b.left) {
+                        if matches!(u.op, syn::UnOp::Deref(_)) && path_ident(&u.expr).is_some() {
+                            return harmless(&b.right, st, &BTreeSet::new());
+                        }
+                    }
+                }
+                harmless(e, st, &BTreeSet::new())
+            }
+            _ => harmless(e, st, &BTreeSet::new()),
+        }
+    }
+    fn is_noop_stmt(&self, s: &Stmt, vars: &Vars) -> bool {
+        match s {
+            Stmt::Expr(e, _) => self.is_noop_expr(e, vars),
+            Stmt::Macro(m) => {
+                let n = m.mac.path.segments.last().map(|s| s.ident.to_string()).unwrap_or_default();
+                n.starts_with("debug_assert") || n.starts_with("assert")
+            }
+            _ => false,
+        }
+    }
+
+    fn note_deref_writes(&self, e: &Expr, vars: &Vars) {
+        // `*slot |= bit` through an element reference: a write to that array
+        struct D<'x> {
+            vars: &'x Vars,
+            hit: Vec<String>,
+        }
+        impl<'x, 'ast> syn::visit::Visit<'ast> for D<'x> {
+            fn visit_expr_unary(&mut self, u: &'ast syn::ExprUnary) {
+                if matches!(u.op, syn::UnOp::Deref(_)) {
+                    if let Some(id) = path_ident(&u.expr) {
+                        if let Some(V::Ref { arr, .. }) = self.vars.get(&id) {
+                            self.hit.push(arr.rsplit('_').next().unwrap_or("").to_string());
+                        }
+                    }
+                }
+                syn::visit::visit_expr_unary(self, u);
+            }
+        }
+        let mut d = D { vars, hit: vec![] };
+        syn::visit::Visit::visit_expr(&mut d, e);
+        for h in d.hit {
+            self.written.borrow_mut().insert(h);
+        }
+    }
+
+    fn walk(&self, ws: &[W], vars: Vars) -> Res<String> {
+        let Some(first) = ws.first() else { return Ok("(nil, s, Some 0)".to_string()) };
+        let rest = &ws[1..];
+        let st = self.st;
+        let env = E { cx: self, vars: &vars };
+        match first {
+            W::LetExpr(name, init) => self.walk_let(name, init, rest, vars.clone()),
+            W::S(Stmt::Macro(m)) => {
+                let n = m.mac.path.segments.last().map(|s| s.ident.to_string()).unwrap_or_default();
+                if n.starts_with("debug_assert") || n.starts_with("assert") {
+                    // debug_assert*: absent in release builds; the cfg(kyrodb_verif) H4 `assert!`s are the
+                    // verification hook itself, not production code
+                    self.walk(rest, vars)
+                } else {
+                    fail(m, "macro the extractor does not understand")
+                }
+            }
+            W::S(Stmt::Item(i)) => fail(i, "nested item"),
+            W::S(Stmt::Local(l)) => {
+                let Some(init) = &l.init else { return fail(l, "let without initialiser") };
+                let pat = match &l.pat {
+                    Pat::Type(pt) => &*pt.pat,
+                    p => p,
+                };
+                if let Some((_, div)) = &init.diverge {
+                    // let Some(x) = E else { return ... };
+                    let Pat::TupleStruct(ts) = pat else { return fail(pat, "let-else pattern other than Some(x)") };
+                    if src_of(&ts.path) != "Some" || ts.elems.len() != 1 {
+                        return fail(pat, "let-else pattern other than Some(x)");
+                    }
+                    let Pat::Ident(pi) = &ts.elems[0] else { return fail(pat, "let-else pattern other than Some(x)") };
+                    if !diverges_plainly(div) {
+                        return fail(&**div, "let-else branch is not a plain `return`");
+                    }
+                    let v = env.eval_v(&init.expr)?;
+                    let v = env.need(&init.expr, v)?;
+                    let pres = self.take_pres();
+                    let mut nv = vars.clone();
+                    nv.insert(pi.ident.to_string(), v);
+                    return Ok(wrap(&pres, self.walk(rest, nv)?));
+                }
+                match pat {
+                    Pat::Ident(pi) => self.walk_let(&pi.ident.to_string(), &init.expr, rest, vars.clone()),
+                    Pat::Wild(_) => self.walk_let("_", &init.expr, rest, vars.clone()),
+                    _ => fail(pat, "let pattern other than a plain variable"),
+                }
+            }
+            W::S(Stmt::Expr(e, semi)) => {
+                let e = strip_parens(e);
+                let is_tail = rest.is_empty() && semi.is_none();
+                // no-ops for the model
+                if (!is_tail || !self.returns_value) && self.is_noop_expr(e, &vars) {
+                    self.note_deref_writes(e, &vars);
+                    return self.walk(rest, vars);
+                }
+                match e {
+                    Expr::Return(r) => match &r.expr {
+                        None => Ok("(nil, s, None)".to_string()),
+                        Some(x) => {
+                            let v = env.eval_v(x)?;
+                            let pres = self.take_pres();
+                            Ok(wrap(&pres, self.result_term(&v)))
+                        }
+                    },
+                    Expr::If(i) => self.walk_if(i, rest, vars.clone()),
+                    Expr::Unsafe(u) => {
+                        let mut ws2: Vec<W> = u.block.stmts.iter().map(W::S).collect();
+                        if !is_tail {
+                            // a non-tail unsafe block: its trailing expression is a statement
+                        }
+                        ws2.extend_from_slice(rest);
+                        self.walk(&ws2, vars)
+                    }
+                    Expr::Block(b) if !is_tail => {
+                        let mut ws2: Vec<W> = b.block.stmts.iter().map(W::S).collect();
+                        ws2.extend_from_slice(rest);
+                        self.walk(&ws2, vars)
+                    }
+                    Expr::ForLoop(f) => {
+                        // only: iteration over a range of a tracked Vec whose body writes through the element
+                        let v = env.eval_v(&f.expr)?;
+                        let pres = self.take_pres();
+                        match v {
+                            V::Slice { field, .. } => {
+                                let body_ok = f.body.stmts.iter().all(|s| self.is_noop_stmt(s, &vars));
+                                if !body_ok {
+                                    return fail(&f.body, "loop body over a Vec range does more than write through the element");
+                                }
+                                self.written.borrow_mut().insert(field);
+                                Ok(wrap(&pres, self.walk(rest, vars)?))
+                            }
+                            _ => fail(&f.expr, "for loop over something other than a range of a tracked Vec"),
+                        }
+                    }
+                    Expr::Assign(a) => {
+                        // self.V[I] = E   |   self.F = E
+                        let l = strip_parens(&a.left);
+                        if let Expr::Index(ix) = l {
+                            if let Some(f) = self_field(&ix.expr) {
+                                if st.tracked_vec(&f) {
+                                    let _ = env.eval_v(&a.right)?;
+                                    let i = env.num(&ix.index)?;
+                                    let (arr, alen) = (st.arr(&f), st.getter(&f));
+                                    env.acc(l, false, &f, &arr, &i, "1", &alen, true);
+                                    env.push(Pre::Require(format!("({} <? {})", i, alen)));
+                                    let pres = self.take_pres();
+                                    return Ok(wrap(&pres, self.walk(rest, vars)?));
+                                }
+                            }
+                        }
+                        if let Some(f) = self_field(l) {
+                            match st.kind(&f) {
+                                Some(FK::Scalar) => {
+                                    let t = env.num(&a.right)?;
+                                    env.push(Pre::SetState(st.setter(&f, &t)));
+                                    self.mutates.set(true);
+                                    let pres = self.take_pres();
+                                    return Ok(wrap(&pres, self.walk(rest, vars)?));
+                                }
+                                Some(FK::VecLen) => return fail(e, "assignment of a whole tracked Vec"),
+                                _ => {
+                                    let _ = env.eval_v(&a.right)?;
+                                    let pres = self.take_pres();
+                                    return Ok(wrap(&pres, self.walk(rest, vars)?));
+                                }
+                            }
+                        }
+                        fail(e, "assignment the extractor does not understand")
+                    }
+                    Expr::MethodCall(m) => {
+                        let n = m.method.to_string();
+                        let args: Vec<&Expr> = m.args.iter().collect();
+                        // length-changing calls on a tracked Vec
+                        if let Some(f) = self_field(&m.receiver) {
+                            if st.tracked_vec(&f) {
+                                let cur = st.getter(&f);
+                                let new_len = match (n.as_str(), args.len()) {
+                                    ("push", 1) => {
+                                        let _ = env.eval_v(args[0])?;
+                                        format!("({} + 1)", cur)
+                                    }
+                                    ("extend", 1) => {
+                                        // extend(std::iter::repeat_n(X, N))
+                                        let a = strip_parens(args[0]);
+                                        let Expr::Call(c) = a else { return fail(a, "extend with something other than std::iter::repeat_n(X, N)") };
+                                        let p = path_string(&c.func).unwrap_or_default();
+                                        if !p.ends_with("repeat_n") || c.args.len() != 2 {
+                                            return fail(a, "extend with something other than std::iter::repeat_n(X, N)");
+                                        }
+                                        format!("({} + {})", cur, env.num(&c.args[1])?)
+                                    }
+                                    ("resize", 2) => env.num(args[0])?,
+                                    ("clear", 0) => "0".to_string(),
+                                    ("truncate", 1) => format!("(N.min {} {})", cur, env.num(args[0])?),
+                                    _ => return fail(e, "call on a tracked Vec that the extractor does not model"),
+                                };
+                                env.push(Pre::SetState(st.setter(&f, &new_len)));
+                                self.mutates.set(true);
+                                self.written.borrow_mut().insert(f.clone());
+                                let pres = self.take_pres();
+                                return Ok(wrap(&pres, self.walk(rest, vars)?));
+                            }
+                        }
+                        // self.V[A..B].fill(X) / .copy_from_slice(Y)
+                        if ["fill", "copy_from_slice"].contains(&n.as_str()) {
+                            if let Expr::Index(ix) = strip_parens(&m.receiver) {
+                                if let Some(f) = self_field(&ix.expr) {
+                                    if st.tracked_vec(&f) {
+                                        for a in &args {
+                                            let _ = env.eval_v(a)?;
+                                        }
+                                        let v = env.eval_v(&m.receiver)?;
+                                        if let V::Slice { field, .. } = v {
+                                            self.written.borrow_mut().insert(field);
+                                        }
+                                        let pres = self.take_pres();
+                                        return Ok(wrap(&pres, self.walk(rest, vars)?));
+                                    }
+                                }
+                            }
+                        }
+                        // anything else: evaluate for its accesses / sibling calls, ignore the value
+                        let v = env.eval_v(e)?;
+                        let pres = self.take_pres();
+                        if is_tail {
+                            return Ok(wrap(&pres, self.result_term(&v)));
+                        }
+                        Ok(wrap(&pres, self.walk(rest, vars)?))
+                    }
+                    Expr::While(_) | Expr::Loop(_) | Expr::Match(_) | Expr::Break(_) | Expr::Continue(_) => fail(e, "control flow the extractor does not model"),
+                    Expr::Struct(_) if is_tail => fail(e, "struct literal outside a constructor"),
+                    _ => {
+                        let v = env.eval_v(e)?;
+                        let pres = self.take_pres();
+                        if is_tail {
+                            Ok(wrap(&pres, self.result_term(&v)))
+                        } else {
+                            Ok(wrap(&pres, self.walk(rest, vars)?))
+                        }
+                    }
+                }
+            }
+        }
+    }
+
+    fn walk_let(&self, name: &str, init: &Expr, rest: &[W], vars: Vars) -> Res<String> {
+        let init = strip_parens(init);
+        // let x = if C { A } else { B };   -> both branches continue with the rest
+        if let Expr::If(i) = init {
+            let (Some(a), Some((_, eb))) = (single_expr(&i.then_branch), &i.else_branch) else { return fail(init, "if-expression with multi-statement branches in a let") };
+            let Expr::Block(ebb) = strip_parens(eb) else { return fail(init, "else-if chain in a let") };
+            let Some(b) = single_expr(&ebb.block) else { return fail(init, "if-expression with multi-statement branches in a let") };
+            let (pres, c) = self.cond_or_nd(&i.cond, &vars)?;
+            let mut wa = vec![W::LetExpr(name.to_string(), a)];
+            wa.extend_from_slice(rest);
+            let mut wb = vec![W::LetExpr(name.to_string(), b)];
+            wb.extend_from_slice(rest);
+            let ta = self.walk(&wa, vars.clone())?;
+            let tb = self.walk(&wb, vars)?;
+            return Ok(wrap(&pres, format!("(if {} then\n  {}\n  else\n  {})", c, ta, tb)));
+        }
+        let env = E { cx: self, vars: &vars };
+        let v = env.eval_v(init)?;
+        let mut pres = self.take_pres();
+        let mut nv = vars.clone();
+        if name != "_" {
+            let v2 = match v {
+                V::Num(t) => {
+                    let g = coq_ident(name);
+                    pres.push(Pre::Let(g.clone(), t));
+                    V::Num(g)
+                }
+                other => other,
+            };
+            nv.insert(name.to_string(), v2);
+        }
+        Ok(wrap(&pres, self.walk(rest, nv)?))
+    }
+
+    fn cond_or_nd(&self, c: &Expr, vars: &Vars) -> Res<(Vec<Pre>, String)> {
+        let env = E { cx: self, vars };
+        let mark = self.pres.borrow().len();
+        match env.cond(c) {
+            Ok(t) => Ok((self.take_pres(), t)),
+            Err(er) => {
+                self.pres.borrow_mut().truncate(mark);
+                if harmless(c, self.st, &BTreeSet::new()) {
+                    let line = line_of(c);
+                    self.nd_sites.borrow_mut().push(line);
+                    Ok((vec![], format!("(nd {})", line)))
+                } else {
+                    Err(er)
+                }
+            }
+        }
+    }
+
+    fn walk_if(&self, i: &syn::ExprIf, rest: &[W], vars: Vars) -> Res<String> {
+        let then_ws: Vec<W> = i.then_branch.stmts.iter().map(W::S).collect();
+        let else_ws: Vec<W> = match &i.else_branch {
+            None => vec![],
+            Some((_, eb)) => match strip_parens(eb) {
+                Expr::Block(b) => b.block.stmts.iter().map(W::S).collect(),
+                Expr::If(_) => return fail(&**eb, "else-if chain"),
+                _ => return fail(&**eb, "else branch that is not a block"),
+            },
+        };
+        // branch results are statements unless the if is the tail (then they are the function result) —
+        // branches of a non-tail `if` in these methods never end in a value expression
+        let mut wa = then_ws;
+        wa.extend_from_slice(rest);
+        let mut wb = else_ws;
+        wb.extend_from_slice(rest);
+        // if let Some(x) = self.V.get_mut(i) { .. }
+        if let Expr::Let(l) = strip_parens(&i.cond) {
+            let Pat::TupleStruct(ts) = &*l.pat else { return fail(&*l.pat, "if-let pattern other than Some(x)") };
+            let Pat::Ident(pi) = &ts.elems[0] else { return fail(&*l.pat, "if-let pattern other than Some(x)") };
+            let env = E { cx: self, vars: &vars };
+            let v = env.eval_v(&l.expr)?;
+            let pres0 = self.take_pres();
+            return match v {
+                V::OptRef { arr, off, alen, field } => {
+                    let mut nv = vars.clone();
+                    nv.insert(pi.ident.to_string(), V::Ref { arr: arr.clone(), off: off.clone() });
+                    env.acc(&l.expr, false, &field, &arr, &off, "1", &alen, false);
+                    let pa = self.take_pres();
+                    let ta = wrap(&pa, self.walk(&wa, nv)?);
+                    let tb = self.walk(&wb, vars)?;
+                    Ok(wrap(&pres0, format!("(if ({} <? {}) then\n  {}\n  else\n  {})", off, alen, ta, tb)))
+                }
+                V::Opt(o) => {
+                    let b = coq_ident(&pi.ident.to_string());
+                    let mut nv = vars.clone();
+                    nv.insert(pi.ident.to_string(), V::Num(b.clone()));
+                    let ta = self.walk(&wa, nv)?;
+                    let tb = self.walk(&wb, vars)?;
+                    Ok(wrap(&pres0, format!("(match {} with Some {} =>\n  {}\n  | None =>\n  {} end)", o, b, ta, tb)))
+                }
+                _ => fail(&*l.expr, "if-let on something that is not an Option in the model"),
+            };
+        }
+        let (pres, c) = self.cond_or_nd(&i.cond, &vars)?;
+        let ta = self.walk(&wa, vars.clone())?;
+        let tb = self.walk(&wb, vars)?;
+        Ok(wrap(&pres, format!("(if {} then\n  {}\n  else\n  {})", c, ta, tb)))
+    }
+}
+
+fn single_expr(b: &syn::Block) -> Option<&Expr> {
+    if b.stmts.len() == 1 {
+        if let Stmt::Expr(e, None) = &b.stmts[0] {
+            return Some(e);
+        }
+    }
+    None
+}
+fn diverges_plainly(e: &Expr) -> bool {
+    if let Expr::Block(b) = strip_parens(e) {
+        if b.block.stmts.len() == 1 {
+            if let Stmt::Expr(Expr::Return(r), _) = &b.block.stmts[0] {
+                return match &r.expr {
+                    None => true,
+                    Some(x) => {
+                        let t = src_of(&**x).replace(' ', "");
+                        t == "&[]" || t == "None" || t == "false" || t == "true" || t == "0"
+                    }
+                };
+            }
+        }
+    }
+    false
+}
+
+pub struct Out {
+    pub coq: String,
+    pub report: serde_json::Value,
+}
+
+fn ret_kind(f: &syn::ImplItemFn) -> (bool, String) {
+    match &f.sig.output {
+        syn::ReturnType::Default => (false, "()".into()),
+        syn::ReturnType::Type(_, t) => {
+            let s = src_of(&**t).replace(' ', "");
+            (s.starts_with("Option<"), s)
+        }
+    }
+}
+
+fn calls_of(f: &syn::ImplItemFn) -> BTreeSet<String> {
+    struct C(BTreeSet<String>);
+    impl<'ast> syn::visit::Visit<'ast> for C {
+        fn visit_expr_method_call(&mut self, m: &'ast syn::ExprMethodCall) {
+            if path_ident(&m.receiver).as_deref() == Some("self") {
+                self.0.insert(m.method.to_string());
+            }
+            syn::visit::visit_expr_method_call(self, m);
+        }
+    }
+    let mut c = C(BTreeSet::new());
+    syn::visit::Visit::visit_block(&mut c, &f.block);
+    c.0
+}
+
+pub fn run(repo: &str) -> Res<Out> {
+    let path = format!("{}/engine/src/ann_backend.rs", repo);
+    set_file(&path);
+    let file = parse_file(&path)?;
+    // constants
+    let mut consts: BTreeMap<String, String> = BTreeMap::new();
+    for it in &file.items {
+        if let syn::Item::Const(c) = it {
+            struct NoEnv;
+            impl NumEnv for NoEnv {
+                fn var(&self, _: &str) -> Option<String> {
+                    None
+                }
+            }
+            if let Ok(t) = num(&c.expr, &NoEnv) {
+                consts.insert(c.ident.to_string(), t);
+            }
+        }
+    }
+    let mut coq = String::new();
+    coq.push_str("(* GENERATED by harness/p/xl17 (target packed) from engine/src/ann_backend.rs — do not edit; rewritten on every run.\n   See Model/PackedBase.v for the meaning of the pieces. *)\n");
+    coq.push_str("From Coq Require Import NArith List Bool.\nFrom Kyro Require Import Model.Strided Model.PackedBase.\nImport ListNotations.\nOpen Scope N_scope.\n\n");
+    coq.push_str("Definition arr_param : N := 1000.\n");
+    for (k, v) in &consts {
+        coq.push_str(&format!("Definition const_{} : N := {}.\n", k, v));
+    }
+    coq.push('\n');
+    let mut rep_structs = Vec::new();
+    let mut arr_id = 0usize;
+    let mut total_methods = 0usize;
+    let mut total_accesses = 0usize;
+    let mut method_names: Vec<String> = Vec::new();
+
+    for sname in STRUCTS {
+        let Some(sdef) = file.items.iter().find_map(|it| match it {
+            syn::Item::Struct(s) if s.ident == sname => Some(s),
+            _ => None,
+        }) else {
+            return fail_at(0, sname, "struct not found in ann_backend.rs");
+        };
+        let mut fields = Vec::new();
+        for f in &sdef.fields {
+            let n = f.ident.as_ref().map(|i| i.to_string()).unwrap_or_default();
+            let ty = src_of(&f.ty).replace(' ', "");
+            let k = if ty == "usize" {
+                FK::Scalar
+            } else if ty.starts_with("Vec<") {
+                if IGNORED_VECS.contains(&(*sname, n.as_str())) { FK::Ignored } else { FK::VecLen }
+            } else {
+                FK::Ignored
+            };
+            fields.push((n, k));
+        }
+        let derives_default = sdef.attrs.iter().any(|a| a.path().is_ident("derive") && a.to_token_stream().to_string().contains("Default"));
+        let mut methods: Vec<&syn::ImplItemFn> = Vec::new();
+        for it in &file.items {
+            if let syn::Item::Impl(im) = it {
+                if im.trait_.is_none() && src_of(&*im.self_ty) == *sname {
+                    for ii in &im.items {
+                        if let syn::ImplItem::Fn(f) = ii {
+                            if !has_attr_cfg(&f.attrs, "test") {
+                                methods.push(f);
+                            }
+                        }
+                    }
+                }
+            }
+        }
+        let st = SInfo { name: sname.to_string(), fields, derives_default, methods };
+        // ignored Vec fields must never be touched by unsafe / raw code
+        for f in &st.methods {
+            struct Ig<'x, 'f> {
+                st: &'x SInfo<'f>,
+                bad: Option<(usize, String)>,
+                in_unsafe: usize,
+            }
+            impl<'x, 'f, 'ast> syn::visit::Visit<'ast> for Ig<'x, 'f> {
+                fn visit_expr_unsafe(&mut self, u: &'ast syn::ExprUnsafe) {
+                    self.in_unsafe += 1;
+                    syn::visit::visit_expr_unsafe(self, u);
+                    self.in_unsafe -= 1;
+                }
+                fn visit_expr_field(&mut self, f: &'ast syn::ExprField) {
+                    let e = Expr::Field(f.clone());
+                    if let Some(n) = self_field(&e) {
+                        if self.st.kind(&n) == Some(FK::Ignored) && self.in_unsafe > 0 && self.bad.is_none() {
+                            self.bad = Some((line_of(f), src_of(f)));
+                        }
+                    }
+                    syn::visit::visit_expr_field(self, f);
+                }
+            }
+            let mut ig = Ig { st: &st, bad: None, in_unsafe: 0 };
+            syn::visit::Visit::visit_block(&mut ig, &f.block);
+            if let Some((l, s)) = ig.bad {
+                return fail_at(l, &s, "a field left out of the model is used inside an unsafe block");
+            }
+        }
+
+        // record
+        let tracked: Vec<(String, FK)> = st.fields.iter().filter(|f| f.1 != FK::Ignored).cloned().collect();
+        let fname = |f: &(String, FK)| if f.1 == FK::VecLen { format!("{}_{}_len", sname, f.0) } else { format!("{}_{}", sname, f.0) };
+        coq.push_str(&format!("(* struct {} (line {}): scalar usize fields and Vec lengths; fields left out: {} *)\n", sname, line_of(sdef),
+            st.fields.iter().filter(|f| f.1 == FK::Ignored).map(|f| f.0.clone()).collect::<Vec<_>>().join(", ")));
+        coq.push_str(&format!("Record {} : Type := mk_{} {{ {} }}.\n", sname, sname, tracked.iter().map(|f| format!("{} : N", fname(f))).collect::<Vec<_>>().join("; ")));
+        for (i, f) in tracked.iter().enumerate() {
+            let args: Vec<String> = tracked.iter().enumerate().map(|(j, g)| if i == j { "v".to_string() } else { format!("({} s)", fname(g)) }).collect();
+            coq.push_str(&format!("Definition set_{} (s : {}) (v : N) : {} := mk_{} {}.\n", fname(f), sname, sname, sname, args.join(" ")));
+            if f.1 == FK::VecLen {
+                coq.push_str(&format!("Definition arr_{}_{} : N := {}.\n", sname, f.0, arr_id));
+                arr_id += 1;
+            }
+        }
+        if st.derives_default {
+            coq.push_str(&format!("Definition {}_default : {} := mk_{} {}.\n", sname, sname, sname, tracked.iter().map(|_| "0").collect::<Vec<_>>().join(" ")));
+        }
+        coq.push('\n');
+
+        // order: callees first
+        let names: BTreeSet<String> = st.methods.iter().map(|f| f.sig.ident.to_string()).collect();
+        let mut order: Vec<&syn::ImplItemFn> = Vec::new();
+        let mut done: BTreeSet<String> = BTreeSet::new();
+        let mut guard = 0;
+        while order.len() < st.methods.len() && guard < 100 {
+            guard += 1;
+            for f in &st.methods {
+                let n = f.sig.ident.to_string();
+                if done.contains(&n) {
+                    continue;
+                }
+                let deps: BTreeSet<String> = calls_of(f).into_iter().filter(|c| names.contains(c) && *c != n).collect();
+                if deps.iter().all(|d| done.contains(d)) {
+                    done.insert(n);
+                    order.push(f);
+                }
+            }
+        }
+        if order.len() != st.methods.len() {
+            return fail_at(line_of(sdef), sname, "recursive sibling calls");
+        }
+        let must: &[&str] = MUST.iter().find(|m| m.0 == *sname).map(|m| m.1).unwrap_or(&[]);
+        for m in must {
+            if !names.contains(*m) {
+                return fail_at(line_of(sdef), &format!("{}::{}", sname, m), "expected method not found (renamed or removed; the Coq statements refer to it)");
+            }
+        }
+        let mut translated: BTreeMap<String, MethInfo> = BTreeMap::new();
+        let mut skipped: BTreeSet<String> = BTreeSet::new();
+        let mut rep_methods = Vec::new();
+        for f in order {
+            let mname = f.sig.ident.to_string();
+            let (is_opt, ret_txt) = ret_kind(f);
+            // constructor: no receiver, returns Self
+            let has_recv = f.sig.inputs.iter().any(|a| matches!(a, syn::FnArg::Receiver(_)));
+            let mut params: Vec<(String, PK)> = Vec::new();
+            let mut slice_params = BTreeSet::new();
+            let mut param_err = None;
+            for a in &f.sig.inputs {
+                if let syn::FnArg::Typed(pt) = a {
+                    let ty = src_of(&pt.ty).replace(' ', "");
+                    let pn = src_of(&pt.pat).replace("mut ", "");
+                    match ty.as_str() {
+                        "usize" | "u32" | "u64" | "u16" => params.push((pn, PK::Num)),
+                        "bool" => params.push((pn, PK::Bool)),
+                        t if t.starts_with("&[") => {
+                            slice_params.insert(pn.clone());
+                            params.push((pn, PK::SliceLen));
+                        }
+                        _ => param_err = Some((line_of(a), src_of(a))),
+                    }
+                }
+            }
+            let cx = Cx {
+                st: &st, consts: &consts, translated: &translated, skipped: &skipped, slice_params, is_opt, returns_value: ret_txt != "()",
+                pres: RefCell::new(vec![]), fresh: Cell::new(0), written: RefCell::new(BTreeSet::new()),
+                accesses: RefCell::new(vec![]), nd_sites: RefCell::new(vec![]), mutates: Cell::new(false),
+            };
+            let mut vars: Vars = BTreeMap::new();
+            for (pn, pk) in &params {
+                match pk {
+                    PK::Num => { vars.insert(pn.clone(), V::Num(coq_ident(pn))); }
+                    PK::Bool => { vars.insert(pn.clone(), V::Bool(coq_ident(pn))); }
+                    PK::SliceLen => { vars.insert(pn.clone(), V::Data); }
+                }
+            }
+            let pdecl: String = params.iter().map(|(pn, pk)| match pk {
+                PK::Num => format!(" ({} : N)", coq_ident(pn)),
+                PK::Bool => format!(" ({} : bool)", coq_ident(pn)),
+                PK::SliceLen => format!(" ({}_len : N)", coq_ident(pn)),
+            }).collect();
+            let result: Res<String> = (|| {
+                if let Some((l, s)) = &param_err {
+                    return fail_at(*l, s, "parameter type outside the model");
+                }
+                if !has_recv {
+                    // constructor: lets, then `Self { .. }`
+                    let stmts = &f.block.stmts;
+                    let Some(Stmt::Expr(Expr::Struct(lit), None)) = stmts.last() else { return fail(&f.sig, "associated function without receiver that does not end in a struct literal") };
+                    let env_vars = RefCell::new(vars.clone());
+                    let mut lets = String::new();
+                    for s in &stmts[..stmts.len() - 1] {
+                        let Stmt::Local(l) = s else { return fail(s, "constructor statement other than let") };
+                        let Pat::Ident(pi) = &l.pat else { return fail(&l.pat, "constructor let pattern") };
+                        let Some(init) = &l.init else { return fail(l, "let without initialiser") };
+                        let vs = env_vars.borrow().clone();
+                        let env = E { cx: &cx, vars: &vs };
+                        let t = env.num(&init.expr)?;
+                        let g = coq_ident(&pi.ident.to_string());
+                        lets.push_str(&format!("  let {} := {} in\n", g, t));
+                        env_vars.borrow_mut().insert(pi.ident.to_string(), V::Num(g));
+                    }
+                    let vs = env_vars.borrow().clone();
+                    let env = E { cx: &cx, vars: &vs };
+                    let mut vals = Vec::new();
+                    for tf in &tracked {
+                        let Some(fv) = lit.fields.iter().find(|x| src_of(&x.member) == tf.0) else { return fail(lit, "struct literal misses a tracked field") };
+                        let ex = strip_parens(&fv.expr);
+                        let t = if tf.1 == FK::Scalar {
+                            env.num(ex)?
+                        } else {
+                            // Vec::new() | vec![X; N] | Vec::with_capacity(_)
+                            let txt = src_of(ex).replace(' ', "");
+                            if txt == "Vec::new()" || txt.starts_with("Vec::with_capacity(") {
+                                "0".to_string()
+                            } else if let Expr::Macro(mc) = ex {
+                                if mc.mac.path.is_ident("vec") {
+                                    let toks = mc.mac.tokens.to_string();
+                                    let Some(idx) = toks.rfind(';') else { return fail(ex, "vec! literal other than vec![X; N]") };
+                                    let n_expr: Expr = syn::parse_str(&toks[idx + 1..]).map_err(|_| TrError { file: cur_file(), line: line_of(ex), construct: src_of(ex), msg: "cannot parse the length of vec![X; N]".into() })?;
+                                    env.num(&n_expr)?
+                                } else {
+                                    return fail(ex, "initialiser of a tracked Vec that the extractor does not understand");
+                                }
+                            } else {
+                                return fail(ex, "initialiser of a tracked Vec that the extractor does not understand");
+                            }
+                        };
+                        vals.push(t);
+                    }
+                    return Ok(format!("Definition {}_{}{} : {} :=\n{}  mk_{} {}.\n", sname, mname, pdecl, sname, lets, sname, vals.iter().map(|v| format!("({})", v)).collect::<Vec<_>>().join(" ")));
+                }
+                let ws: Vec<W> = f.block.stmts.iter().map(W::S).collect();
+                let body = cx.walk(&ws, vars.clone())?;
+                Ok(format!("Definition {}_{} (s : {}) (rd : N -> N -> N) (nd : N -> bool){} : mres {} :=\n  {}.\n", sname, mname, sname, pdecl, sname, body))
+            })();
+            match result {
+                Ok(def) => {
+                    coq.push_str(&format!("(* {}::{} (line {}) -> {} *)\n{}\n", sname, mname, line_of(&f.sig), coq_comment(&ret_txt), def));
+                    let accs = cx.accesses.borrow().clone();
+                    total_accesses += accs.len();
+                    total_methods += 1;
+                    method_names.push(format!("{}_{}", sname, mname));
+                    rep_methods.push(json!({"name": mname, "line": line_of(&f.sig), "translated": true, "constructor": !has_recv, "returns": ret_txt,
+                        "accesses": accs, "opaque_conditions_at_lines": cx.nd_sites.borrow().clone(), "unsafe_fn": f.sig.unsafety.is_some()}));
+                    if has_recv {
+                        translated.insert(mname.clone(), MethInfo { is_opt, params: params.clone(), written: cx.written.borrow().clone(), mutates: cx.mutates.get() });
+                    }
+                }
+                Err(e) => {
+                    if must.contains(&mname.as_str()) {
+                        return Err(e);
+                    }
+                    let mut ok_sib: BTreeSet<String> = translated.keys().cloned().collect();
+                    ok_sib.extend(skipped.iter().cloned());
+                    // translated siblings that mutate lengths are not acceptable inside an untranslated method
+                    let ok_sib: BTreeSet<String> = ok_sib.into_iter().filter(|n| translated.get(n).map(|m| !m.mutates).unwrap_or(true)).collect();
+                    match preserves(f, &st, &ok_sib) {
+                        Ok(()) => {
+                            skipped.insert(mname.clone());
+                            rep_methods.push(json!({"name": mname, "line": line_of(&f.sig), "translated": false,
+                                "why_not": format!("line {}: {} ({})", e.line, e.msg, e.construct),
+                                "accepted_because": "no unsafe code and only length-preserving safe methods on the tracked Vecs"}));
+                        }
+                        Err((l, why)) => {
+                            return fail_at(l, &format!("{}::{}", sname, mname), &format!("method could not be translated ({} at line {}) and is not provably length-preserving: {}", e.msg, e.line, why));
+                        }
+                    }
+                }
+            }
+        }
+        rep_structs.push(json!({"name": sname, "line": line_of(sdef), "fields": st.fields.iter().map(|f| json!({"name": f.0, "kind": format!("{:?}", f.1)})).collect::<Vec<_>>(), "methods": rep_methods}));
+    }
+    coq.push_str(&format!("Definition packed_method_count : N := {}.\n", total_methods));
+    let report = json!({"ok": true, "source": path, "structs": rep_structs, "methods_translated": total_methods, "accesses_total": total_accesses,
+        "method_names": method_names, "constants": consts,
+        "summary": format!("{} methods of {} structs, {} access sites", total_methods, STRUCTS.len(), total_accesses)});
+    Ok(Out { coq, report })
+}
